@@ -101,3 +101,6 @@ func RedirectCall(fullName string, f interface{}) {}
 // PutBE64 stores v big-endian into b[0:8]; BE64 reads it back (bytes of a symbolic word stay linked to it).
 func PutBE64(b []byte, v uint64) {}
 func BE64(b []byte) uint64       { return 0 }
+
+// GuardAlt: like Guard/GuardObj, but every writer also holds the plain mutex alt, so reads under alt alone are race-free.
+func GuardAlt(x interface{}, mu interface{}, alt interface{}, what string) {}
